@@ -4,6 +4,7 @@ import (
 	"fmt"
 	"go/ast"
 	"go/parser"
+	"go/token"
 	"os"
 	"path/filepath"
 	"sort"
@@ -258,6 +259,37 @@ func splitTop(s string, sep byte) []string {
 	return parts
 }
 
+// splitConj splits a clause into its top-level conjuncts; conjunctions directly under forall(k, lo, hi, ...) and
+// implies(a, ...) are distributed. Each conjunct becomes its own obligation (smaller queries, precise diagnostics).
+func splitConj(e ast.Expr) []ast.Expr {
+	switch n := e.(type) {
+	case *ast.ParenExpr:
+		return splitConj(n.X)
+	case *ast.BinaryExpr:
+		if n.Op == token.LAND {
+			return append(splitConj(n.X), splitConj(n.Y)...)
+		}
+	case *ast.CallExpr:
+		if id, ok := n.Fun.(*ast.Ident); ok {
+			if id.Name == "forall" && len(n.Args) == 4 {
+				var out []ast.Expr
+				for _, b := range splitConj(n.Args[3]) {
+					out = append(out, &ast.CallExpr{Fun: n.Fun, Args: []ast.Expr{n.Args[0], n.Args[1], n.Args[2], b}})
+				}
+				return out
+			}
+			if id.Name == "implies" && len(n.Args) == 2 {
+				var out []ast.Expr
+				for _, b := range splitConj(n.Args[1]) {
+					out = append(out, &ast.CallExpr{Fun: n.Fun, Args: []ast.Expr{n.Args[0], b}})
+				}
+				return out
+			}
+		}
+	}
+	return []ast.Expr{e}
+}
+
 func parseSpecExpr(src string) (ast.Expr, error) {
 	return parser.ParseExpr(rewriteImplies(src))
 }
@@ -363,7 +395,14 @@ func (db *ContractDB) parseFile(pkg, file, text string) {
 			if fs[0] == "requires" {
 				cur.Requires = append(cur.Requires, c)
 			} else {
-				cur.Ensures = append(cur.Ensures, c)
+				parts := splitConj(e)
+				if len(parts) == 1 {
+					cur.Ensures = append(cur.Ensures, c)
+				} else {
+					for i, pe := range parts {
+						cur.Ensures = append(cur.Ensures, Clause{Kind: fs[0], Label: fmt.Sprintf("%s/%d", label, i+1), Src: src, Expr: pe, Line: l.line})
+					}
+				}
 			}
 		case "modifies":
 			if cur == nil {
@@ -437,6 +476,15 @@ func (db *ContractDB) parseFile(pkg, file, text string) {
 			if err != nil {
 				errf(l.line, "parse %q: %v", src, err)
 				continue
+			}
+			if kind == "invariant" {
+				parts := splitConj(e)
+				if len(parts) > 1 {
+					for i, pe := range parts {
+						cur.Loops = append(cur.Loops, LoopClause{Loop: n, Kind: kind, Label: fmt.Sprintf("%s/%d", label, i+1), Src: src, Expr: pe, Line: l.line})
+					}
+					continue
+				}
 			}
 			cur.Loops = append(cur.Loops, LoopClause{Loop: n, Kind: kind, Label: label, Src: src, Expr: e, Line: l.line})
 		case "spec":
